@@ -1,4 +1,5 @@
 import GeoVerif.Model.MathF
+import GeoVerif.Proofs.F64Val
 import Mathlib.Analysis.SpecialFunctions.Trigonometric.Basic
 import Mathlib.Tactic.Ring
 import Mathlib.Tactic.Linarith
@@ -38,5 +39,235 @@ theorem sincosd_quadrant (q : ℤ) (d : ℝ) :
 /-- non-vacuity: the switch really permutes (q = 1 sends (s, c) to (c, −s)) -/
 example : quadSwitch (5 : ℤ) (1 : ℝ) 2 = (2, -1) := by
   unfold quadSwitch; norm_num
+
+
+/-! ## Exact theorems about the binary64 model (`F64` = the model the driver executes against the implementation)
+
+`F64.val` is the rational value of a finite binary64.  `remainder` (the `std::remainder` used by `AngNormalize`,
+`AngDiff` and the `remquo` reduction of `sincosd`) is modelled exactly; constants 90/180/360 come from
+`Gen.MathC` (re-extracted from `Math.hpp` on every run), so these theorems are re-checked against the source. -/
+open Dy F64
+
+theorem td_eq : td = F64.fin false 360 0 := rfl
+theorem hd_eq : hd = F64.fin false 180 0 := rfl
+theorem qd_eq : qd = F64.fin false 90 0 := rfl
+
+
+/-- **Exact argument reduction**: `remainder(x, y)` is the finite number `x − n·y`, `n = remquo` the integer nearest
+to `x/y`, hence `|result| ≤ |y|/2` with no rounding error at all; a zero result keeps the sign of `x`.  (This is why
+`sincosd`, `AngNormalize`, … depend on their argument only modulo 360.) -/
+theorem remainder_exact (sx sy : Bool) (mx my : ℕ) (ex ey : ℤ) (hy : my ≠ 0) :
+    let x := F64.fin sx mx ex; let y := F64.fin sy my ey
+    (remainder x y).isFinite = true ∧
+    (remainder x y).val = x.val - (remquoN x y : ℚ) * y.val ∧
+    2 * |(remainder x y).val| ≤ |y.val| ∧
+    ((remainder x y).val = 0 → (remainder x y).signbit = sx) := F64.remainder_spec sx sy mx my ex ey hy
+
+/-- **AngNormalize**: for every finite `x` the result is finite, congruent to `x` modulo 360 *exactly*, lies in
+`[−180, 180]`, and a result of `0` or `±180` carries the sign of `x`. -/
+theorem angNormalize_spec (sx : Bool) (mx : ℕ) (ex : ℤ) :
+    let x := F64.fin sx mx ex
+    (angNormalize x).isFinite = true ∧
+    (∃ n : ℤ, (angNormalize x).val = x.val - 360 * n) ∧
+    |(angNormalize x).val| ≤ 180 ∧
+    ((angNormalize x).val = 0 ∨ |(angNormalize x).val| = 180 → (angNormalize x).signbit = sx) := by
+  intro x
+  obtain ⟨hfin, hval, hb, hsg⟩ := remainder_spec sx false mx 360 ex 0 (by norm_num)
+  have htdv : (F64.fin false 360 0).val = 360 := by rw [F64.val_fin]; simp
+  rw [htdv] at hval hb
+  rw [abs_of_pos (by norm_num : (0:ℚ) < 360)] at hb
+  unfold angNormalize
+  rw [td_eq, hd_eq]
+  set y := remainder x (F64.fin false 360 0) with hy
+  -- y is finite
+  obtain ⟨sy, my, ey, hyf⟩ : ∃ s m e, y = F64.fin s m e := F64.exists_fin_of_isFinite y hfin
+  have habs : (F64.abs y).isFinite = true := by rw [hyf]; rfl
+  have h180 : (F64.fin false 180 0).val = 180 := by rw [F64.val_fin]; simp
+  by_cases hE : F64.eq (F64.abs y) (F64.fin false 180 0) = true
+  · simp only [hE, if_true]
+    have hyv : |y.val| = 180 := by
+      have := (F64.eq_fin_iff _ _ habs rfl).mp hE
+      rw [hyf, F64.val_abs_fin, h180] at this; rw [hyf]; exact this
+    have hcs : copysign (F64.fin false 180 0) x = F64.fin sx 180 0 := rfl
+    rw [hcs]
+    have hv : (F64.fin sx 180 0).val = if sx then -180 else 180 := by rw [F64.val_fin]; by_cases h : sx <;> simp [h]
+    refine ⟨rfl, ?_, ?_, fun _ => rfl⟩
+    · -- y = x − 360 n with |y| = 180 ⇒ ±180 both congruent
+      rcases abs_eq (by norm_num : (0:ℚ) ≤ 180) |>.mp hyv with hpos | hneg
+      · by_cases h : sx
+        · refine ⟨remquoN x (F64.fin false 360 0) + 1, ?_⟩
+          rw [hv]; simp only [h, if_true]; push_cast; linarith
+        · refine ⟨remquoN x (F64.fin false 360 0), ?_⟩
+          rw [hv]; simp only [h]; push_cast; linarith
+      · by_cases h : sx
+        · refine ⟨remquoN x (F64.fin false 360 0), ?_⟩
+          rw [hv]; simp only [h, if_true]; push_cast; linarith
+        · refine ⟨remquoN x (F64.fin false 360 0) - 1, ?_⟩
+          rw [hv]; simp only [h]; push_cast; linarith
+    · rw [hv]; by_cases h : sx <;> simp [h]
+  · have hE' : F64.eq (F64.abs y) (F64.fin false 180 0) = false := by simpa using hE
+    simp only [hE', Bool.false_eq_true, if_false]
+    have hne : |y.val| ≠ 180 := by
+      intro hc; apply hE
+      apply (F64.eq_fin_iff _ _ habs rfl).mpr
+      rw [hyf, F64.val_abs_fin, h180]; rw [hyf] at hc; exact hc
+    refine ⟨hfin, ⟨remquoN x (F64.fin false 360 0), by rw [hval]; ring⟩, by linarith, ?_⟩
+    rintro (h0 | h1)
+    · exact hsg h0
+    · exact absurd h1 hne
+
+/-- NaN and infinities are mapped to NaN by `AngNormalize` -/
+theorem angNormalize_nonfinite (x : F64) (h : x.isFinite = false) : (angNormalize x).isNaN = true := by
+  cases x <;> simp_all [isFinite] <;> rfl
+
+/-- **LatFix**: the identity on `[−90, 90]` (and on NaN), NaN elsewhere -/
+theorem latFix_spec (x : F64) :
+    (latFix x = x ∨ (latFix x).isNaN = true) ∧
+    (∀ s m e, x = F64.fin s m e → (|x.val| ≤ 90 ↔ latFix x = x)) := by
+  constructor
+  · unfold latFix; split <;> simp [isNaN]
+  · intro s m e hx
+    unfold latFix
+    rw [qd_eq, hx]
+    have : F64.gt (F64.abs (F64.fin s m e)) (F64.fin false 90 0) = true ↔ 90 < |(F64.fin s m e).val| := by
+      show Dy.lt _ _ = true ↔ _
+      rw [Dy.lt_iff]
+      have h90 : (F64.fin false 90 0).toDy.val = 90 := by
+        have := F64.val_fin false 90 0; simpa [F64.val] using this
+      rw [h90]
+      have := F64.val_abs_fin s m e; unfold F64.val at this; rw [this]; rfl
+    by_cases hg : F64.gt (F64.abs (F64.fin s m e)) (F64.fin false 90 0) = true
+    · simp only [hg, if_true]
+      have := this.mp hg
+      constructor
+      · intro h; linarith
+      · intro h; cases h
+    · simp only [hg]
+      have h' : ¬ 90 < |(F64.fin s m e).val| := fun h => hg (this.mpr h)
+      constructor
+      · intro _; trivial
+      · intro _; linarith
+/-- **AngRound** is the identity on every finite `|x| ≥ 1/16` (bit for bit, sign included) -/
+theorem angRound_big (s : Bool) (m : ℕ) (e : ℤ) (h : 1 / 16 ≤ |(F64.fin s m e).val|) :
+    angRound (F64.fin s m e) = F64.fin s m e := by
+  unfold angRound
+  simp only []
+  have hw : F64.gt ((F64.fin false 1 (-4)) - F64.abs (F64.fin s m e)) 0 = false := by
+    show F64.gt (F64.rnd (Dy.add (F64.fin false 1 (-4)).toDy (F64.neg (F64.abs (F64.fin s m e))).toDy) _) 0 = false
+    apply rnd_nonpos_not_gt
+    have hv : (Dy.add (F64.fin false 1 (-4)).toDy (F64.neg (F64.abs (F64.fin s m e))).toDy).val ≤ 0 := by
+      rw [Dy.val_add]
+      have h1 : (F64.fin false 1 (-4)).toDy.val = 1 / 16 := by
+        simp [F64.toDy, Dy.val]; norm_num
+      have h2 : (F64.neg (F64.abs (F64.fin s m e))).toDy.val = -|(F64.fin s m e).val| := by
+        rw [← F64.val_abs_fin]; simp [F64.neg, F64.abs, F64.toDy, Dy.val, F64.val]
+      rw [h1, h2]; linarith
+    by_contra hc
+    have hpos : 0 < (Dy.add (F64.fin false 1 (-4)).toDy (F64.neg (F64.abs (F64.fin s m e))).toDy).m := by omega
+    have := (Dy.m_neg_iff (Dy.neg (Dy.add (F64.fin false 1 (-4)).toDy (F64.neg (F64.abs (F64.fin s m e))).toDy))).mp (by simp [Dy.neg]; omega)
+    rw [Dy.val_neg] at this; linarith
+  rw [hw]; rfl
+
+/-- non-vacuity: 540° normalises to 180 (sign kept), −1e-320-ish subnormal stays itself, 1/32 is *not* in the identity range of AngRound -/
+example : (angNormalize (F64.fin false 540 0)).toBits = (F64.fin false 180 0).toBits := by decide
+example : (angNormalize (F64.fin true 540 0)).toBits = (F64.fin true 180 0).toBits := by decide
+example : (1 : ℚ) / 16 ≤ |(F64.fin true 3 (-4)).val| := by rw [F64.val_fin]; norm_num
+
+/-- `AngDiff` written with projections -/
+theorem angDiff_unfold (x y : F64) :
+    angDiff x y =
+      (let s1 := MathF.sum (remainder (F64.neg x) td) (remainder y td)
+       let s2 := MathF.sum (remainder s1.1 td) s1.2
+       (if F64.eq s2.1 0 || F64.eq (F64.abs s2.1) hd then
+          copysign s2.1 (if F64.eq s2.2 0 then y - x else F64.neg s2.2) else s2.1, s2.2)) := by
+  unfold angDiff; rfl
+
+theorem val_copysign_fin (s : Bool) (m : ℕ) (e : ℤ) (z : F64) :
+    (copysign (F64.fin s m e) z).val = (F64.fin s m e).val ∨ (copysign (F64.fin s m e) z).val = -(F64.fin s m e).val := by
+  show (F64.fin z.signbit m e).val = _ ∨ (F64.fin z.signbit m e).val = _
+  rw [F64.val_fin, F64.val_fin]
+  cases s <;> cases z.signbit <;> simp
+
+/--
+**AngDiff, exactness (partial)**.  Full statement of the property: for all finite `x, y`, `d + e ≡ y − x (mod 360)` *exactly*.
+Proved here under the TwoSum contract for the two calls of `Math::sum` inside `AngDiff` (the high word is finite and
+`s + t = u + v` exactly); the contract itself is not proved for all pairs (Knuth's TwoSum theorem for `round53`) — it is
+evaluated in exact dyadic arithmetic by the driver on every sampled pair.  What is proved: the reductions by
+`remainder`, the second normalisation and the sign fix-up at `0`/`±180` never lose anything modulo 360.
+-/
+theorem angDiff_exact_partial (sx sy : Bool) (mx my : ℕ) (ex ey : ℤ) :
+    let x := F64.fin sx mx ex; let y := F64.fin sy my ey
+    let s1 := MathF.sum (remainder (F64.neg x) td) (remainder y td)
+    let s2 := MathF.sum (remainder s1.1 td) s1.2
+    s1.1.isFinite = true → s2.1.isFinite = true →
+    s1.1.val + s1.2.val = (remainder (F64.neg x) td).val + (remainder y td).val →
+    s2.1.val + s2.2.val = (remainder s1.1 td).val + s1.2.val →
+    ∃ n : ℤ, (angDiff x y).1.val + (angDiff x y).2.val = y.val - x.val - 360 * n := by
+  intro x y s1 s2 hf1 hf2 H1 H2
+  obtain ⟨-, hr1, -, -⟩ := F64.remainder_spec (!sx) false mx 360 ex 0 (by norm_num)
+  obtain ⟨-, hr2, -, -⟩ := F64.remainder_spec sy false my 360 ey 0 (by norm_num)
+  obtain ⟨s3, m3, e3, hd1⟩ := F64.exists_fin_of_isFinite s1.1 hf1
+  obtain ⟨-, hr3, -, -⟩ := F64.remainder_spec s3 false m3 360 e3 0 (by norm_num)
+  obtain ⟨s4, m4, e4, hd2⟩ := F64.exists_fin_of_isFinite s2.1 hf2
+  have h360 : (F64.fin false 360 0).val = 360 := by rw [F64.val_fin]; simp
+  have hnegx : (F64.fin (!sx) mx ex).val = -x.val := by
+    show _ = -(F64.fin sx mx ex).val
+    rw [F64.val_fin, F64.val_fin]; cases sx <;> simp
+  rw [h360] at hr1 hr2 hr3
+  rw [hnegx] at hr1
+  have e1 : remainder (F64.neg x) td = remainder (F64.fin (!sx) mx ex) (F64.fin false 360 0) := rfl
+  have e2 : remainder y td = remainder (F64.fin sy my ey) (F64.fin false 360 0) := rfl
+  have e3' : remainder s1.1 td = remainder (F64.fin s3 m3 e3) (F64.fin false 360 0) := by rw [hd1]; rfl
+  rw [e1, e2, hr1, hr2] at H1
+  rw [e3', hr3] at H2
+  have hfin3 : (F64.fin s3 m3 e3).val = s1.1.val := by rw [hd1]
+  rw [angDiff_unfold]
+  show ∃ n : ℤ, (if F64.eq s2.1 0 || F64.eq (F64.abs s2.1) hd then
+          copysign s2.1 (if F64.eq s2.2 0 then y - x else F64.neg s2.2) else s2.1).val + s2.2.val = _
+  -- the totals before the sign fix
+  have base : s2.1.val + s2.2.val = y.val - x.val
+      - 360 * ((remquoN (F64.fin (!sx) mx ex) (F64.fin false 360 0) + remquoN (F64.fin sy my ey) (F64.fin false 360 0)
+          + remquoN (F64.fin s3 m3 e3) (F64.fin false 360 0) : ℤ) : ℚ) := by
+    push_cast; rw [H2, hfin3]; linarith
+  by_cases hc : (F64.eq s2.1 0 || F64.eq (F64.abs s2.1) hd) = true
+  · simp only [hc, if_true]
+    -- value is 0 or ±180: copysign changes it by 0 or ±360
+    have hv : s2.1.val = 0 ∨ |s2.1.val| = 180 := by
+      rcases Bool.or_eq_true _ _ |>.mp hc with h | h
+      · left
+        have := (F64.eq_fin_iff s2.1 0 hf2 rfl).mp h
+        rw [this]; show (F64.fin false 0 0).val = 0; rw [F64.val_fin]; simp
+      · right
+        have hA : (F64.abs s2.1).isFinite = true := by rw [hd2]; rfl
+        have := (F64.eq_fin_iff _ hd hA rfl).mp h
+        rw [hd2, F64.val_abs_fin, hd_eq] at this
+        rw [hd2, this, F64.val_fin]; simp
+    set z := (if F64.eq s2.2 0 then y - x else F64.neg s2.2) with hz
+    have hcs := val_copysign_fin s4 m4 e4 z
+    rw [← hd2] at hcs
+    rcases hcs with hsame | hflip
+    · exact ⟨_, by rw [hsame]; exact base⟩
+    · rcases hv with h0 | h180
+      · exact ⟨_, by rw [hflip, h0, neg_zero, ← h0]; exact base⟩
+      · rcases abs_eq (by norm_num : (0:ℚ) ≤ 180) |>.mp h180 with hp | hn
+        · refine ⟨(remquoN (F64.fin (!sx) mx ex) (F64.fin false 360 0) + remquoN (F64.fin sy my ey) (F64.fin false 360 0)
+              + remquoN (F64.fin s3 m3 e3) (F64.fin false 360 0)) + 1, ?_⟩
+          rw [hflip]; push_cast at base ⊢; linarith
+        · refine ⟨(remquoN (F64.fin (!sx) mx ex) (F64.fin false 360 0) + remquoN (F64.fin sy my ey) (F64.fin false 360 0)
+              + remquoN (F64.fin s3 m3 e3) (F64.fin false 360 0)) - 1, ?_⟩
+          rw [hflip]; push_cast at base ⊢; linarith
+  · have hc' : (F64.eq s2.1 0 || F64.eq (F64.abs s2.1) hd) = false := by simpa using hc
+    simp only [hc', Bool.false_eq_true, if_false]
+    exact ⟨_, base⟩
+
+
+/-- non-vacuity of `angDiff_exact_partial`: for x = 10.5, y = 350.25 both TwoSum hypotheses hold (decided exactly in dyadic arithmetic) -/
+example :
+    let x := F64.fin false 21 (-1); let y := F64.fin false 1401 (-2)
+    let s1 := MathF.sum (remainder (F64.neg x) td) (remainder y td)
+    let s2 := MathF.sum (remainder s1.1 td) s1.2
+    s1.1.isFinite = true ∧ s2.1.isFinite = true ∧
+    Dy.eq (Dy.add s1.1.toDy s1.2.toDy) (Dy.add (remainder (F64.neg x) td).toDy (remainder y td).toDy) = true ∧
+    Dy.eq (Dy.add s2.1.toDy s2.2.toDy) (Dy.add (remainder s1.1 td).toDy s1.2.toDy) = true := by decide
 
 end GeoVerif.Props.C16
